@@ -59,10 +59,11 @@ template <class T> static long long snap(T x, long long S, double& worst) { Qd s
 template <class T> static long long snap_scaled(T x, T scale, double& worst) { long long r = (long long)llroundl((long double)x); Qd d = fabsq((Qd)x - (Qd)r); if (d != 0) { int e; frexpq((Qd)std::max(std::fabs(scale), (T)1), &e); double u = (double)(d / ldexpq((Qd)1, e - std::numeric_limits<T>::digits)); if (u > worst) worst = u; } return r; }
 // ---- exact: dyadic material family ----
 template <class T> static void elastic_ctor_exact() {
-  for (int k = 4; k <= 6; k++) for (int a : {1, 2, 3, 5}) { long long P = 1LL << k; if (3 * a >= P) continue;
-      long long S = 2 * P, SN = 2 * P;                                   // stiffness scale S = 2^(k+1); Poisson ratio scale SN = 2^(k+1)
+  // k = 0 stands for the lower edge of the admissible range: nu = 0 (lambda = 0, mu = 3a); every pair except (lambda, nu) determines the material there
+  for (int k = 0; k <= 6; k++) for (int a : {1, 2, 3, 5}) { if (k >= 1 && k <= 3) continue; long long P = k ? (1LL << k) : 3 * a; if (k && 3 * a >= P) continue;
+      long long S = k ? 2 * P : 2, SN = k ? 2 * P : 2;                   // stiffness scale S = 2^(k+1); Poisson ratio scale SN = 2^(k+1)
       Qd mu = 3 * a, lam = P - 3 * a;
-      for (auto& p : PAIRS) { T x = (T)exact_mod(p.a, mu, lam), y = (T)exact_mod(p.b, mu, lam);
+      for (auto& p : PAIRS) { if (k == 0 && p.a == mL && p.b == mNu) continue; T x = (T)exact_mod(p.a, mu, lam), y = (T)exact_mod(p.b, mu, lam);
         Solid<T> s = build<T>(p.a, p.b, x, y); double w = 0;
         long long smu = snap<T>(s.ShearModulus().Value(), S, w), slam = snap<T>(s.LameFirstModulus().Value(), S, w);
         long long sx = snap<T>(x, p.a == mNu ? SN : S, w), sy = snap<T>(y, p.b == mNu ? SN : S, w);
